@@ -76,7 +76,7 @@ FEEDS = ['list', 'list', 'iter', 'gen', 'seq_ds', 'data_source']
 
 
 def plan(tier, seed):
-  n_chunks, per = (15, 1000) if tier == "quick" else (64, 28000)
+  n_chunks, per = (32, 2500) if tier == "quick" else (64, 28000)
   specs = [{'mode': 'selftest'}]
   for c in range(n_chunks):
     specs.append({'mode': 'chains', 'rseed': seed, 'chunk': c, 'count': per})
